@@ -244,7 +244,9 @@ def gen(rs: int, index: int, tier: str) -> Dict[str, Any]:
             k = re_.choice(["neg", "gneg", "trunc", "foreign"])
         ecu[str(d)] = {"kind": k, "values": gen_values(re_, layout), "nrc": re_.choice([0x11, 0x12, 0x31]),
                        "cut": re_.randint(1, 2)}
-    return {"kind": kind, "variants": variants, "did_layout": did_layout, "ecu": ecu}
+    ra = S.rng("abandon")
+    abandon = [ra.choice([0, 0, 1, 2, 3]), ra.random() < 0.5] if ra.random() < 0.35 else None
+    return {"kind": kind, "variants": variants, "did_layout": did_layout, "ecu": ecu, "abandon": abandon}
 
 
 # ------------------------------------------------------------------ building real candidates
@@ -316,16 +318,30 @@ def build_candidates(cfg: Dict[str, Any]) -> List[Any]:
 
 
 # ------------------------------------------------------------------ execution
-def drive(cands: List[Any], cfg: Dict[str, Any], use_cache: bool, log: EventLog) -> Dict[str, Any]:
-    """The tester actor: exactly the loop of the VariantMatcher docstring."""
+def drive(cands: List[Any], cfg: Dict[str, Any], use_cache: bool, log: EventLog,
+          abandon_after: Optional[int] = None) -> Dict[str, Any]:
+    """The tester actor: exactly the loop of the VariantMatcher docstring.  With `abandon_after` = k the
+    tester first gives up after the k-th exchange (a transport timeout: the loop is left and the generator
+    closed) and then runs the identification again on the same matcher."""
     from odxtools.variantmatcher import VariantMatcher
     table = {}
     for d, entry in cfg["ecu"].items():
         did = int(d)
         table[bytes([0x22, did >> 8, did & 0xFF])] = ecu_bytes(did, cfg["did_layout"][d], entry)
-    res: Dict[str, Any] = {"requests": [], "exc": None, "unknown_request": None}
+    res: Dict[str, Any] = {"requests": [], "exc": None, "unknown_request": None, "abandoned": False}
     try:
         m = VariantMatcher(cands, use_cache=use_cache)
+        if abandon_after is not None:
+            gen0 = m.request_loop()
+            for i, (phys, req) in enumerate(gen0):
+                reqb = bytes(req)
+                log.ev("tester", "request-before-timeout", {"cache": use_cache, "req": reqb})
+                m.evaluate(table.get(reqb) or bytes([0x7F, reqb[0] if reqb else 0, 0x11]))
+                if i >= abandon_after:
+                    res["abandoned"] = True
+                    break
+            gen0.close()
+            log.ev("tester", "abandoned", {"after": abandon_after, "happened": res["abandoned"]})
         steps = 0
         for phys, req in m.request_loop():
             steps += 1
@@ -409,6 +425,23 @@ def execute(trace: Dict[str, Any]) -> Dict[str, Any]:
             violations.append({"oracle": "C14.O5-rerun-is-noop", "sig": {"cache": use_cache},
                                "detail": {"again": res["again"]}})
         counters["requests_" + tag] = len(res["requests"])
+    # fault: the tester abandons the loop after k exchanges and retries on the same matcher
+    ab = cfg.get("abandon")
+    if ab is not None and not violations:
+        res = drive(cands, cfg, bool(ab[1]), log, abandon_after=int(ab[0]))
+        if res["abandoned"]:
+            probes["loop_abandoned_and_retried"] = 1
+            if res["exc"] is not None:
+                sig = exc_sig(res["exc"])
+                violations.append({"oracle": "C14.O6-abandon-and-retry", "sig": {"what": "raises", **sig},
+                                   "detail": {"msg": str(res["exc"])[:200], "abandon": ab}})
+            else:
+                got = res["match"] if res["has_match"] else None
+                if got != want and got != want_alt:
+                    violations.append({"oracle": "C14.O6-abandon-and-retry",
+                                       "sig": {"what": "wrong-verdict-after-retry", "cache": bool(ab[1])},
+                                       "detail": {"model": want, "got": got, "abandon": ab,
+                                                  "requests_in_retry": [x.hex() for x in res["requests"]]}})
     a, b = results[False], results[True]
     if a["exc"] is None and b["exc"] is None:
         ga = a["match"] if a["has_match"] else None
@@ -437,7 +470,8 @@ def execute(trace: Dict[str, Any]) -> Dict[str, Any]:
         "digest": log.digest(),
         "events": log.events,
         "counters": counters,
-        "faults": {("ecu_" + k): 1 for k in kinds if k != "pos"},
+        "faults": {**{("ecu_" + k): 1 for k in kinds if k != "pos"},
+                   **({"tester_abandons_loop": 1} if probes.get("loop_abandoned_and_retried") else {})},
         "probes": probes,
         "states": states,
         "sched_sig": h64("cfg", len(cands), tuple(len(v["patterns"]) for v in cfg["variants"])),
